@@ -281,6 +281,18 @@ def _r3_rebuild_from_nothing(ctx):
     for n in ast.walk(rc.node):
         if isinstance(n, ast.Attribute) and n.attr == "map" and isinstance(n.value, ast.Name) and n.value.id in rc.params:
             sites.append(n)
+    if not sites:
+        # the table may be handed over by a helper the build calls (one planting per module instead of one per method)
+        helpers = []
+        for f in repo.all_funcs():
+            if f is rc or f.cls is not None:
+                continue
+            fs = [n for n in ast.walk(f.node) if isinstance(n, ast.Attribute) and n.attr == "map" and isinstance(n.value, ast.Name) and n.value.id in f.params]
+            if fs and any(isinstance(s_, ast.Assign) and isinstance(s_.targets[0], ast.Subscript) and s_.value in fs for s_ in all_stmts(f.node)):
+                helpers.append((f, fs))
+        if len(helpers) == 1 and stmts_calling_name(build.node, helpers[0][0].name):
+            rc, sites = helpers[0]
+            ctx.touch(rc)
     ctx.require(sites, f"{rc.key} never hands the function's table to the rewritten method")
     rcfg = cfg_of(ctx, rc)
     stmts = all_stmts(rc.node)
@@ -290,8 +302,10 @@ def _r3_rebuild_from_nothing(ctx):
             isinstance(st, ast.Assign)
             and st.value is site
             and isinstance(st.targets[0], ast.Subscript)
-            and isinstance(st.targets[0].value, ast.Attribute)
-            and st.targets[0].value.attr == "__globals__"
+            and (
+                (isinstance(st.targets[0].value, ast.Attribute) and st.targets[0].value.attr == "__globals__")
+                or (isinstance(st.targets[0].value, ast.Name) and st.targets[0].value.id in rc.params)
+            )
         )
         on_all = rcfg.must_reach(rcfg.entry, [rcfg.node_of(st)]) if rcfg.node_of(st) is not None else False
         ctx.ob(
@@ -301,6 +315,10 @@ def _r3_rebuild_from_nothing(ctx):
             plain and on_all,
             f"`{short(st, 70)}` does not unconditionally rebind the table global: after a rebuild, rewritten methods keep looking up the previous table",
         )
+
+
+def stmts_calling_name(fnode, name):
+    return [s_ for s_ in all_stmts(fnode) if any(isinstance(c, ast.Call) and call_name(c) == name for c in ast.walk(s_))]
 
 
 def r2(ctx):
